@@ -408,6 +408,9 @@ def gen_case(rng, rtype, vtype, sk, idx):
         decr = vtype.endswith("decreasing")
         c["decreasing"] = decr
         c["stop"] = ctl.dy(rng, 2.5, 4.5) if decr else ctl.dy(rng, 4.5, 6.5)   # the first value may already be beyond it
+        if idx % 2 == 1:
+            # the bias is defined while the variable is already beyond the stopping value (in the ratchet's direction)
+            c["stop"] = hist[0]["d1"] + (0.5 if decr else -0.5)
         b += " forceConstant %s\n stoppingValue %s\n" % (fnum(k0), fnum(c["stop"]))
         if decr:
             b += " decreasing on\n"
